@@ -49,6 +49,21 @@ func decisionAction(v ssa.Value) (string, string) {
 
 func fallbackFacts(b *ssa.BasicBlock) (notNone, notCompat bool) {
 	for _, cf := range condFacts(b) {
+		// a miss in a table keyed by the rejecting behaviours: `if r, rejects := table[behaviour]; rejects {…}` not taken
+		if ex, ok := cf.Cond.(*ssa.Extract); ok && ex.Index == 1 && !cf.True && theCtx != nil {
+			if lk, ok := ex.Tuple.(*ssa.Lookup); ok && lk.CommaOk {
+				if rows, ok := theCtx.globalTable(globalBehind(lk.X)); ok {
+					for _, row := range rows {
+						if row.HasKey && row.Key == "none" {
+							notNone = true
+						}
+						if row.HasKey && row.Key == "compatible_only" {
+							notCompat = true
+						}
+					}
+				}
+			}
+		}
 		bo, ok := cf.Cond.(*ssa.BinOp)
 		if !ok || bo.Op != token.EQL || cf.True {
 			continue
